@@ -43,7 +43,11 @@ bool reservedFitsKeyword(const char* key){
 	       strcmp("HISTORY", key) == 0 ||
 	       strcmp("CONTINUE", key) == 0 ||
 	       strcmp("PCOUNT", key) == 0 ||
-	       strcmp("GCOUNT", key) == 0);
+	       strcmp("GCOUNT", key) == 0 ||
+	       //the names by which fits_movnam_hdu finds the KNOTSn and EXTENTS
+	       //images; its search includes the primary header
+	       strcmp("EXTNAME", key) == 0 ||
+	       strcmp("HDUNAME", key) == 0);
 }
 
 uint32_t countAuxKeywords(fitsfile* fits){
